@@ -313,6 +313,19 @@ fn on_point(p: &Point) {
             emit(json!({"ev":"process","starts":inc(starts),"drops":inc(drops),"commits":inc(commits),
                 "submits":submits.iter().map(inc).collect::<Vec<_>>()}));
         }
+        Point::Batch { sets } => {
+            // collector conformance (TraceColl.tla): what every submitted set of the batch consists of
+            if !sets.is_empty() || !s.free.load(Ordering::SeqCst) {
+                emit(json!({"ev":"batch","subs":sets.iter().map(|b| json!({
+                    "tok": b.items.iter().map(|(c, tr, par)| json!({"cid":cid_out(*c),"tr":hex32(*tr),"par":hex16(*par)})).collect::<Vec<_>>(),
+                    "q": b.raws.iter().map(|(id, par, k, np)| json!({"id":hex16(*id),"par":hex16(*par),"k":k,"np":np})).collect::<Vec<_>>(),
+                })).collect::<Vec<_>>()}));
+            }
+        }
+        Point::AfterProcess { active } => {
+            emit(json!({"ev":"after","active":active.iter().map(|a| json!({"cid":cid_out(a.collect_id),
+                "sets":a.buffered_sets,"dang":a.danglings})).collect::<Vec<_>>()}));
+        }
         Point::CycleEnd => {
             emit(json!({"ev":"cycend"}));
             s.in_cycle.store(false, Ordering::SeqCst);
